@@ -32,6 +32,7 @@ type Case struct {
 	Allowed  bool     // AllowedStates A,B,C (D and Exception are not synchronised)
 	Skipped  bool     // SkippedStates D
 	SyncMut  bool     // SyncMutations (per-mutation clock updates)
+	Tail     bool     // with Allowed: the allowlist is {D, C} (not a prefix of the source's states)
 	SlowPush bool     // push interval far beyond the scenario: only mutation replies carry diffs
 	Pre      []string // add:<s> / rem:<s> applied to the source before the client connects
 	Ops      []string // loc:<add|rem>:<s> cli:<add|rem>:<s> hold (park the next reply) release wait drift
@@ -54,7 +55,7 @@ func (c Case) messageLevel() bool {
 
 func (c Case) Lines() []string {
 	l := []string{fmt.Sprintf("conv-case shallow=%d seed=%d noschema=%d allowed=%d skipped=%d syncmut=%d slowpush=%d",
-		b2i(c.Shallow), c.Seed, b2i(c.NoSchema), b2i(c.Allowed), b2i(c.Skipped), b2i(c.SyncMut), b2i(c.SlowPush))}
+		b2i(c.Shallow), c.Seed, b2i(c.NoSchema), b2i(c.Allowed)+b2i(c.Allowed && c.Tail), b2i(c.Skipped), b2i(c.SyncMut), b2i(c.SlowPush))}
 	if len(c.Pre) > 0 {
 		l = append(l, "pre "+strings.Join(c.Pre, " "))
 	}
@@ -84,7 +85,8 @@ func ParseCase(lines []string) (Case, error) {
 				case "noschema":
 					c.NoSchema = kv[1] == "1"
 				case "allowed":
-					c.Allowed = kv[1] == "1"
+					c.Allowed = kv[1] == "1" || kv[1] == "2"
+					c.Tail = kv[1] == "2"
 				case "skipped":
 					c.Skipped = kv[1] == "1"
 				case "syncmut":
@@ -466,6 +468,10 @@ func Exec(c Case) *Run {
 		// not in schema order: the index space of the diffs is the one agreed in the handshake
 		copts.AllowedStates = am.S{"C", "A", "B"}
 		tracked = am.S{"A", "B", "C"}
+		if c.Tail {
+			copts.AllowedStates = am.S{"D", "C"}
+			tracked = am.S{"C", "D"}
+		}
 	}
 	if c.Skipped {
 		copts.SkippedStates = am.S{"D"}
@@ -504,6 +510,9 @@ func Exec(c Case) *Run {
 	defer registry.Delete(cli)
 	srv.Start(nil)
 	src.BindTracer(&afterTracer{TracerNoOp: &am.TracerNoOp{Id: "verif-after"}, h: h})
+	// a small budget of reconnect attempts per outage (the default is 50): it is a budget per outage,
+	// an established connection may drop any number of times
+	cli.ConnRetries = 4
 	cli.ConnRetryDelay = 20 * time.Millisecond
 	cli.ConnRetryBackoff = 0
 	cli.Start(nil)
@@ -883,7 +892,12 @@ func GenCase(r *rand.Rand) Case {
 	// half of the scenarios run the default configuration (compared with the model message by
 	// message), the others draw from the sync configurations
 	if r.Intn(2) == 0 {
-		switch r.Intn(7) {
+		switch r.Intn(8) {
+		case 7:
+			// an allowlist that is not a prefix of the source's states, shallow clocks, no schema
+			c.Allowed, c.Tail = true, true
+			c.NoSchema = r.Intn(3) != 0
+			c.Shallow = r.Intn(3) != 0
 		case 6:
 			// schema-less client with an allowlist
 			c.NoSchema, c.Allowed = true, true
@@ -924,7 +938,9 @@ func GenCase(r *rand.Rand) Case {
 			c.Ops = append(c.Ops, op+[]string{"add:", "add:", "rem:"}[r.Intn(3)]+states[r.Intn(4)])
 		}
 		tr := states
-		if c.Allowed {
+		if c.Allowed && c.Tail {
+			tr = states[2:4]
+		} else if c.Allowed {
 			tr = states[:3]
 		} else if c.Skipped {
 			tr = states[:3]
